@@ -6,7 +6,7 @@ IDS=${*:-$(ls seeded)}
 bad=0
 for id in $IDS; do
   [ -f seeded/$id/patch.diff ] || continue
-  prop=$(.venv/bin/python -c "import json;print(json.load(open('seeded/$id/meta.json'))['breaks_property'])")
+  prop=$(jq -r .breaks_property seeded/$id/meta.json)
   WT=$(mktemp -d /tmp/pv_seedwt_XXXX); rmdir "$WT"
   git -C /repo worktree add -q --detach "$WT" HEAD >/dev/null 2>&1 || { echo "$id: cannot create worktree"; bad=1; continue; }
   if git -C "$WT" apply "$(pwd)/seeded/$id/patch.diff" 2>/dev/null; then
